@@ -23,7 +23,7 @@ import (
 // identical float64.
 
 var evC16 = ev.New("C16", "float64 bit patterns from structured classes (uniform 64-bit non-NaN; every biased exponent 0..2046 with random mantissa; powers of two and ten +-0..3 ulp; integers around 2^53 and 10^k; "+
-	"decimal literals k/10^j; subnormals; +-0; +-Inf; significands that are multiples of 5^q and their neighbours; significands n*2^k; float32-exact values; |f|>=1e229 and <=1e-239 with few digits) placed in frames with 1-3 float columns optionally preceded/followed by a string column of strongly varying length, "+
+	"decimal literals k/10^j; subnormals; +-0; +-Inf; significands that are multiples of 5^q and their neighbours; significands n*2^k; float32-exact values; |f|>=1e229 and <=1e-239 with few digits; decimal mantissas around 2^31, 2^32, 2^63, 2^64, 10^9, 10^10, 10^19 scaled by powers of ten) placed in frames with 1-3 float columns optionally preceded/followed by a string column of strongly varying length, "+
 	"so that the formatter sees empty, tight and roomy destination buffers; oracle: the ToJSON bytes equal the document assembled with strconv.FormatFloat(f,'f',-1,64) and each text parses back to the same bits; "+
 	"evaluations = float values checked; non-trivial = non-zero finite value; distinct = distinct bit patterns (counted on the first 3*10^6 per process)")
 
@@ -105,6 +105,12 @@ func c16Float(rng *hx.SplitMix, class int) float64 {
 				e = -e - 10
 			}
 			f, _ = strconv.ParseFloat(strconv.FormatFloat(d, 'f', -1, 64)+"e"+strconv.Itoa(e), 64)
+		case 13: // digit strings around the word sizes: 2^32, 2^31, 2^63, 2^64 (+-2) and 10^9, 10^10, 10^19 as decimal
+			// mantissa, scaled by any power of ten (digit generation often switches between 32- and 64-bit arithmetic there)
+			ms := []uint64{1 << 32, 1 << 31, 1 << 63, 1<<64 - 1, 1000000000, 10000000000, 10000000000000000000, 1 << 53, 4294967295, 999999999, 9999999999}
+			m := ms[rng.Next()%uint64(len(ms))] + rng.Next()%5 - 2
+			e := int(rng.Next()%60) - 40
+			f, _ = strconv.ParseFloat(strconv.FormatUint(m, 10)+"e"+strconv.Itoa(e), 64)
 		default: // specials
 			f = []float64{0, math.Copysign(0, -1), math.Inf(1), math.Inf(-1), math.MaxFloat64, math.SmallestNonzeroFloat64, 1, -1, 0.1, 0.3, 1e21, 1e22, 1e23, 9007199254740993, 5e-324, 2.2250738585072014e-308}[rng.Next()%16]
 		}
@@ -124,7 +130,7 @@ func TestC16(t *testing.T) {
 		nf := rapid.IntRange(1, 3).Draw(t, "floatcols")
 		strPos := rapid.SampledFrom([]string{"none", "first", "last"}).Draw(t, "strcol")
 		strMax := rapid.SampledFrom([]int{0, 3, 40, 300}).Draw(t, "strmax")
-		classMix := rapid.SampledFrom([]int{-1, -1, 0, 1, 2, 3, 4, 5, 6, 7, 8, 9, 9, 10, 11, 12}).Draw(t, "class")
+		classMix := rapid.SampledFrom([]int{-1, -1, 0, 1, 2, 3, 4, 5, 6, 7, 8, 9, 9, 10, 11, 12, 13, 13}).Draw(t, "class")
 		tab := hx.Table{}
 		var scol hx.Col
 		if strPos != "none" {
@@ -146,7 +152,7 @@ func TestC16(t *testing.T) {
 			for r := range c.F {
 				class := classMix
 				if class < 0 {
-					class = rng.Intn(13)
+					class = rng.Intn(14)
 				}
 				c.F[r] = c16Float(&rng, class)
 			}
